@@ -460,8 +460,10 @@ func (pl *planner) run() {
 		for k, v := range pl.inlined {
 			if d := v - snap[k]; d > 0 {
 				h.nested[k] += d
-				for kk, vv := range pl.helpers[k].nested {
-					h.nested[kk] += vv * d
+				if hk := pl.helpers[k]; hk != nil { // (library helpers are not in the table)
+					for kk, vv := range hk.nested {
+						h.nested[kk] += vv * d
+					}
 				}
 			}
 		}
